@@ -5,11 +5,10 @@ CONSTANTS
   Interval = 60
   Waits = {0, 20, 100}
   Margin = 25
-  MaxOps = 3
-  AltHandle = TRUE
-  Sim = FALSE
+  MaxOps = 12
+  AltHandle = FALSE
+  Sim = TRUE
 INIT Init
 NEXT Next
 INVARIANT Emit
-INVARIANT ModelOk
 CHECK_DEADLOCK FALSE
